@@ -248,3 +248,11 @@ Proof.
   destruct is_cname; [|reflexivity].
   destruct Hc as [Hc|[Hc|Hc]]; [discriminate| |]; rewrite Hc; reflexivity.
 Qed.
+
+Lemma discover_canon_failure_defers v :
+  (v_addr v = QOk true (Some true) \/
+   (v_addr v = QOk false (Some true) /\ exists x, v_cname v = QOk true x)) ->
+  v_tlsa_canon v = QFail -> discover v = LErr.
+Proof.
+  intros [Ha|[Ha [x Hc]]] Hq; unfold discover, tlsa_lookup; rewrite Ha; cbn [negb]; [|rewrite Hc]; rewrite Hq; reflexivity.
+Qed.
